@@ -26,8 +26,8 @@ import textwrap
 import py2coq
 from py2coq import Refuse, _src, _dotted
 
-SKIP_STMT_CALLS = ('_warn_moore_mealy', 'aut.declare_variables',
-                   'aut.prime_varlists', 'symbolic._assert_support_moore')
+SKIP_STMT_CALLS = ('_warn_moore_mealy', 'aut.prime_varlists',
+                   'symbolic._assert_support_moore')
 MEMVARS = {'_goal': 'm_goal', '_hold': 'm_hold'}
 # zip truncation vs the code's own length assertion: lengths agree for the
 # solver's iterates (the onion invariants); dropped as a precondition
@@ -42,7 +42,21 @@ class Tdc(py2coq.Translator):
         self.dead = set()
         self.guards = []
         self.iterating = []
-        return super().emit_function(fi)
+        self.natlets = []      # top-level natural-number bindings, in order
+        self.dicts = {}        # name -> [(memory variable, lo, hi)]
+        self.declared = None
+        text = super().emit_function(fi)
+        # the memory variables the construction declares, with their ranges
+        # (aut.declare_variables(**vrs)): data pinned by the bridge lemmas
+        if self.declared is None:
+            raise Refuse('the construction declares no memory variable')
+        lets = ''.join(f'  let {n} := {e} in\n' for n, e in self.natlets)
+        rows = '; '.join(f'("{m}"%string, {lo}, {hi})'
+                         for m, lo, hi in self.declared)
+        text += (f'\n\nDefinition {fi.coq_name}_declares : '
+                 'list (string * nat * nat) :=\n'
+                 + lets + f'  [{rows}].')
+        return text
 
     # ------------------------------------------------------------ nat exprs
     def is_nat(self, e):
@@ -94,6 +108,20 @@ class Tdc(py2coq.Translator):
         k = lambda d=defined: self.block(rest, d, tail)
         if isinstance(s, ast.Expr) and isinstance(s.value, ast.Call):
             f = _dotted(s.value.func) or ''
+            if f == 'aut.declare_variables':
+                c = s.value
+                if c.args or len(c.keywords) != 1 or c.keywords[0].arg \
+                        is not None or not isinstance(
+                            c.keywords[0].value, ast.Name) \
+                        or c.keywords[0].value.id not in self.dicts:
+                    raise Refuse('declare_variables: not **<recorded dict>')
+                if self.declared is not None:
+                    raise Refuse('memory declared twice')
+                self.declared = self.dicts[c.keywords[0].value.id]
+                self.notes.append(
+                    'aut.declare_variables of the dictionary: recorded as '
+                    f'{self.fi.coq_name}_declares')
+                return k()
             if f in SKIP_STMT_CALLS:
                 self.notes.append(f'{f}(...) skipped (automaton book-keeping)')
                 return k()
@@ -133,9 +161,26 @@ class Tdc(py2coq.Translator):
                 return k()
             if isinstance(t, ast.Name):
                 # dictionaries used only to declare the memory variables
-                if isinstance(v, ast.Dict) or (
-                        isinstance(v, ast.Call)
-                        and _dotted(v.func) == 'dict'):
+                if isinstance(v, ast.Dict):
+                    # {memory variable name: (lo, hi), ...}
+                    rows = []
+                    for kk, vv in zip(v.keys, v.values):
+                        if not (isinstance(kk, ast.Name)
+                                and kk.id in self.strconst
+                                and isinstance(vv, ast.Tuple)
+                                and len(vv.elts) == 2
+                                and all(self.is_nat(e) for e in vv.elts)):
+                            raise Refuse(f'dictionary literal: {_src(v)}')
+                        n0 = len(self.guards)
+                        lo = self.natexpr(vv.elts[0], defined)
+                        hi = self.natexpr(vv.elts[1], defined)
+                        if len(self.guards) != n0:
+                            raise Refuse('subtraction in a declared range')
+                        rows.append((self.strconst[kk.id], lo, hi))
+                    self.dicts[t.id] = rows
+                    self.dead.add(t.id)
+                    return k()
+                if isinstance(v, ast.Call) and _dotted(v.func) == 'dict':
                     self.dead.add(t.id)
                     return k()
                 if isinstance(v, ast.Constant) and isinstance(v.value, str):
@@ -152,6 +197,8 @@ class Tdc(py2coq.Translator):
                     e = self.natexpr(v, defined)
                     guards, self.guards = self.guards, []
                     self.natvars.add(t.id)
+                    if self.fi.partial:
+                        self.natlets.append((t.id, e))
                     d2 = set(defined) | {t.id}
                     body = f'let {t.id} := {e} in\n' + self.block(
                         rest, d2, tail)
